@@ -3,8 +3,11 @@
 The mask / index argument is concrete per obligation (an enumerated family: single entry, several entries, negative
 index, an index beyond the end), the vector x is symbolic (any length for partial / synchronized / clipped, lengths
 0..4 for impose_at, whose fancy-index assignment is modelled per element) -- so each obligation is "this mask, every
-vector".  The decorated function f is abstract and logs what it receives.  The numpy-based decorators (discrete,
-integers, rounded, sorting, bounded, unique, with_mean ...) are decided by the bounded layer rtc/c16."""
+vector".  The decorated function f is abstract and logs what it receives.  The numpy-based decorators are under
+contract at fixed small sizes (three entries, all values) with the numpy pipeline executed by the interpreter: bounded /
+impose_bounds (clip and re-draw modes, one or two intervals, open sides), discrete, integers / rounded / precision,
+sorting / monotonic, with_mean / with_variance / with_spread / normalized, suppressed, masked.  `unique` (a set of symbolic
+values) stays with the bounded layer rtc/c16."""
 from pyvc.contract import contract
 
 T = 'mystic/tools.py::'
